@@ -18,7 +18,7 @@ from ..core import rule, AnalysisError
 from ..engine import rx, cfg as cfgmod, flow
 from ..engine import pattern as P
 from ..engine.facts import dotted, const, src, walk_func, str_value, enclosing_stmt, ancestors
-from .common import calls, stmt_nodes, contains, pn, access_paths, assigned_from
+from .common import calls, stmt_nodes, contains, pn, access_paths, assigned_from, branch_paths
 
 CURSOR = ("match_position", "lineno", "matched_lineno", "matched_charpos")
 
@@ -258,18 +258,19 @@ def zero_width_consumer(ctx):
 
 
 def _returns_truthy_after_match(fn):
-    """every Return in fn is `False` only under `if not match` / else of `if match`, otherwise truthy or a call"""
-    for r in walk_func(fn):
-        if isinstance(r, ast.Return):
-            v = r.value
-            if isinstance(v, ast.Constant) and v.value in (False, None):
-                ifn = getattr(r, "_parent", None)
-                mv = {s.targets[0].id for s in walk_func(fn) if isinstance(s, ast.Assign) and isinstance(s.targets[0], ast.Name) and isinstance(s.value, ast.Call) and dotted(s.value.func) in ("self.match", "self.match_reg")}
-                neg = isinstance(ifn, ast.If) and isinstance(ifn.test, ast.UnaryOp) and isinstance(ifn.test.op, ast.Not) and isinstance(ifn.test.operand, ast.Name) and ifn.test.operand.id in mv
-                pos = isinstance(ifn, ast.If) and isinstance(ifn.test, ast.Name) and ifn.test.id in mv
-                ok = (neg and r in ifn.body) or (pos and r in ifn.orelse)
-                if not ok:
-                    return False
+    """on every path through fn on which its regex matched, the value returned is truthy (or the path raises):
+    a falsy return is only reached with the match known to have failed"""
+    mv = {s.targets[0].id for s in walk_func(fn) if isinstance(s, ast.Assign) and isinstance(s.targets[0], ast.Name) and isinstance(s.value, ast.Call) and dotted(s.value.func) in ("self.match", "self.match_reg")}
+    for p in branch_paths(fn.body):
+        if isinstance(p.exit, ast.Return):
+            v = p.exit.value
+            falsy = v is None or (isinstance(v, ast.Constant) and v.value in (False, None, 0, ""))
+            if falsy and not any(p.holds(m, False) for m in mv):
+                return False
+        elif p.exit is None:
+            # falls off the end: returns None
+            if not any(p.holds(m, False) for m in mv):
+                return False
     return True
 
 
